@@ -100,16 +100,16 @@ PROPS["C09"] = {
 PROPS["C10"] = {
     "modules": ["OxiaVerif.Props.C10", "OxiaVerif.Props.C10OnTree"],
     "facts": ["codecSizeCheckOverflowSafe", "codecReadIntGuarded", "codecV2HeaderSize", "codecV1HeaderSize",
-              "walRolloverFlushesSegment", "walLastOffsetIsSynced", "walSyncCallbacksOnlyForFlushedEntries"],
+              "walRolloverFlushesSegment", "walLastOffsetIsSynced", "walSyncCallbacksOnlyForFlushedEntries", "walAppendTerminatesLog"],
     "trusted_base": [KERNEL, EXTRACT, CORR,
                      "CRC-32C as a function (hash/crc32); its collision behaviour is not claimed: the checksum is a parameter of the theorems",
                      "mmap/msync/page persistence of the OS: the crash model is 'synced prefix bit-exact, anything after it arbitrary'"],
     "assumptions": ["buffer length < 2^32 (segment sizes are int32)",
                     "'every synced entry is recovered' and 'no fabricated entry' are checked on the real code by the harness oracle (original image vs. recovered records), not by a theorem",
                     "index (.idxx) file corruption is covered by correspondence of the WAL reopen path only"],
-    "rule": "segment images written with the real codec (0-6 records, formats v1 and v2, records that fill the segment to within 0-3 bytes), then damaged: zero runs, random bytes, bit flips, torn tails with garbage islands, crafted length fields (0, exact fit, fit+-1, 0xFFFFFFF3..0xFFFFFFFF, random) at record boundaries, odd buffer lengths; real RecoverIndex / ReadRecordWithValidation / WAL reopen under recover() versus the Lean byte-level model; plus scripts of asynchronous appends and syncs on a syncing WAL across segment boundaries, observed through a hook on append / msync / close of the segments (what is reported as synced must lie in file regions an msync has covered since they were written); the oracle checks never-panics, synced-prefix survival, error only for committed damage, and bit-identity of every recovered v2 record with the original. Non-trivial = the case contains both a non-empty clean-prefix recovery and an error outcome.",
+    "rule": "segment images written with the real codec (0-6 records, formats v1 and v2, records that fill the segment to within 0-3 bytes), then damaged: zero runs, random bytes, bit flips, torn tails with garbage islands, crafted length fields (0, exact fit, fit+-1, 0xFFFFFFF3..0xFFFFFFFF, random) at record boundaries, odd buffer lengths; real RecoverIndex / ReadRecordWithValidation / WAL reopen under recover() versus the Lean byte-level model; plus scripts on the real WAL: a crash that damages one uncommitted entry and leaves the later ones intact, a reopen, one append (same or other size) and a second reopen (the list model decides what the log holds); and scripts of asynchronous appends and syncs on a syncing WAL across segment boundaries, observed through a hook on append / msync / close of the segments (what is reported as synced must lie in file regions an msync has covered since they were written); the oracle checks never-panics, synced-prefix survival, error only for committed damage, and bit-identity of every recovered v2 record with the original. Non-trivial = the case contains both a non-empty clean-prefix recovery and an error outcome.",
     "level_text": "Machine-checked proof (Lean 4) on a byte-level model of both WAL codecs, for every buffer content/length, start offset and commit offset: header validation, record reads and index recovery never panic (given the two bound-check facts read from ReadHeaderWithValidation on every run), a successful recovery returns only validated, back-to-back records (clean prefix), and a validation failure is an error exactly for entries at or below the commit offset and discarded above it; concrete panic witnesses for the unguarded/overflowing checks. The model is tied to the code by byte-level differential runs on damaged images through the real codecs and the real WAL reopen path.",
-    "level_note": "Trusted: Lean kernel; extractor rule classifying the bound checks; CRC as a function; OS persistence model; harness + driver. Fixed D-45 (segment tail never msync'ed at a rollover, yet reported as synced). Partial: synced-prefix survival and no-fabrication are oracle-checked on the implementation, not proved; CRC collisions out of scope.",
+    "level_note": "Trusted: Lean kernel; extractor rule classifying the bound checks; CRC as a function; OS persistence model; harness + driver. Fixed D-45 (segment tail never msync'ed at a rollover, yet reported as synced) and D-51 (entries discarded by a recovery came back after the next append and restart). Partial: synced-prefix survival and no-fabrication are oracle-checked on the implementation, not proved; CRC collisions out of scope.",
     "technique": "Lean 4 proof (case analysis + induction over the recovery loop, uint32 arithmetic explicit) + regenerated bound-check facts + byte-level differential correspondence",
     "design_ref": "DESIGN.md section 6 C10",
 }
